@@ -1,4 +1,5 @@
 import TypstyleModel.Proofs.CarriesLists
+import TypstyleModel.Proofs.CarriesMarkup
 /-! The knot (route M): **for every tree of the covered fragment, the printed family carries exactly
 what the tree prescribes** — code tokens, comments, prose, literals and verbatim text — with no
 per-case certificate: by induction over the fuel of the knot, using the per-construct theorems.
@@ -14,26 +15,24 @@ open Twin
 
 /-! ### leaves -/
 
-def Kind.isLitLeaf : Kind → Bool
-  | .ident | .int | .float | .numeric | .str | .bool => true
-  | _ => false
+/-- Expression leaves that are printed from their own text with the tag `leafTag` gives them. -/
+def Kind.isFragLeaf (k : Kind) : Bool := (leafTag k).isSome && k.isExpr
 
-theorem specAll_lit_leaf (k : Kind) (t : String) (a : Attrs) (h : k.isLitLeaf = true) :
-    specAll (.leaf k t a) = tagS .lit t := by
-  have hc : isCommentKind k = false := by cases k <;> simp_all [Kind.isLitLeaf, isCommentKind]
-  have hs : (k == .space || k == .parbreak) = false := by cases k <;> simp_all [Kind.isLitLeaf]
-  have h2 : (k == .text || k == .shorthand || k == .smartQuote || k == .escape || k == .link || k == .label) = false := by
-    cases k <;> simp_all [Kind.isLitLeaf]
-  have h3 : (k == .refMarker) = false := by cases k <;> simp_all [Kind.isLitLeaf]
-  have h4 : (k == .str || k == .int || k == .float || k == .numeric || k == .bool || k == .ident || k == .mathIdent
-       || k == .escape || k == .link || k == .label) = true := by cases k <;> simp_all [Kind.isLitLeaf]
-  have h5 : (leafTag k).isNone = false := by cases k <;> simp_all [Kind.isLitLeaf, leafTag]
-  apply Streams.ext'
-  · simp [specAll, specToks, hc, hs, tagS, Pretty.charsOf, Pretty.keepOf]
-  · simp [specAll, specCmts, hc, tagS, Pretty.charsOf]
-  · simp only [specAll, specProse, h2, h3]; simp [tagS, Pretty.charsOf]
-  · simp only [specAll, specLit, h4]; simp [tagS, Pretty.charsOf]
-  · simp [specAll, specVerb, h5, tagS, Pretty.charsOf]
+def fragTag (k : Kind) : Pretty.Tag := (leafTag k).getD .tok
+
+theorem specAll_frag_leaf (k : Kind) (t : String) (a : Attrs) (h : k.isFragLeaf = true) :
+    specAll (.leaf k t a) = tagS (fragTag k) t := by
+  cases k <;> simp [Kind.isFragLeaf, leafTag, Kind.isExpr] at h <;>
+    (apply Streams.ext' <;> simp [specAll, specToks, specCmts, specProse, specLit, specVerb, isCommentKind, tagS, Pretty.charsOf,
+      Pretty.keepOf, leafTag, fragTag, Kind.isExpr])
+
+theorem convExprImpl_frag_leaf (e : Env) (r : Rec) (ctx : Ctx) (k : Kind) (t : String) (a : Attrs) (h : k.isFragLeaf = true) :
+    convExprImpl e r ctx (.leaf k t a) = pure (Twin.mkText e.wd (fragTag k) t) := by
+  cases k <;> simp [Kind.isFragLeaf, leafTag, Kind.isExpr] at h <;> rfl
+
+theorem verbNode_frag_leaf (e : Env) (k : Kind) (t : String) (a : Attrs) (h : k.isFragLeaf = true) :
+    e.verbNode (.leaf k t a) = Twin.mkText e.wd (fragTag k) t := by
+  cases k <;> simp [Kind.isFragLeaf, leafTag, Kind.isExpr] at h <;> rfl
 
 /-! ### verbatim emission -/
 
@@ -62,6 +61,15 @@ def Kind.isFragList : Kind → Bool
   | .array | .dict | .parenthesized | .codeBlock => true
   | _ => false
 
+/-- Markup constructs: a `Markup` body between two fixed delimiters (content block, strong, emphasis), and
+the flow constructs of markup (heading, list/enum/term item). -/
+def Kind.isFragWrap : Kind → Bool
+  | .contentBlock | .strong | .emph => true
+  | _ => false
+def Kind.isFragItem : Kind → Bool
+  | .heading | .listItem | .enumItem | .termItem => true
+  | _ => false
+
 /-- A child the list stylist passes over: a comment, white space, or a delimiter/separator. -/
 def isPassable (x : ANode) : Bool := isCommentKind x.kind || isIgnorable x
 
@@ -81,34 +89,37 @@ def listChildrenOK (k : Kind) (cs : List ANode) : Bool :=
           | .inner _ ccs ca => !ca.disabled && ccs.all fun x => isExpr x || isPassable x
           | .leaf _ _ _ => false)
       else isPassable c
+  | .contentBlock => cs.map (·.kind) == [.leftBracket, .markup, .rightBracket]
+  | .strong => cs.map (·.kind) == [.star, .markup, .star]
+  | .emph => cs.map (·.kind) == [.underscore, .markup, .underscore]
+  | .markup => cs.all fun x => x.kind == .space || x.kind == .parbreak || x.kind == .text || isExpr x || isCommentKind x.kind || x.kind.isPlainToken
   | _ => false
 
 mutual
 /-- The covered fragment (decidable). -/
 def inFrag : ANode → Bool
-  | .leaf k t a => ANode.tokensAreLeaves (.leaf k t a) && (!k.isExpr || k.isLitLeaf) && !(k == .underscore) && !k.isInnerKind
+  | .leaf k t a => ANode.tokensAreLeaves (.leaf k t a) && (!k.isExpr || k.isFragLeaf || (k == .parbreak && !a.disabled)) && !k.isInnerKind
   | .inner k cs _ =>
-    (k.isFragFlow || k.isFragElem || (k.isFragList && listChildrenOK k cs) || k == .code) && inFragL cs
+    (k.isFragFlow || k.isFragElem || (k.isFragList && listChildrenOK k cs) || k == .code ||
+      ((k.isFragWrap || k == .markup) && listChildrenOK k cs) || k.isFragItem) && inFragL cs
 def inFragL : List ANode → Bool
   | [] => true
   | c :: cs => inFrag c && inFragL cs
 end
 
+theorem fragKind_inner (k : Kind) (cs : List ANode)
+    (h : (k.isFragFlow || k.isFragElem || (k.isFragList && listChildrenOK k cs) || k == .code ||
+      ((k.isFragWrap || k == .markup) && listChildrenOK k cs) || k.isFragItem) = true) : k.isInnerKind = true := by
+  cases k <;> simp_all [Kind.isFragFlow, Kind.isFragElem, Kind.isFragList, Kind.isFragWrap, Kind.isFragItem, Kind.isInnerKind]
+
 mutual
 theorem inFrag_lex : (n : ANode) → inFrag n = true → ANode.tokensAreLeaves n = true
   | .leaf k t a, h => by
-    simp only [inFrag, Bool.and_eq_true] at h; exact h.1.1.1
+    simp only [inFrag, Bool.and_eq_true] at h; exact h.1.1
   | .inner k cs a, h => by
     simp only [inFrag, Bool.and_eq_true] at h
     simp only [ANode.tokensAreLeaves, Bool.and_eq_true]
-    refine ⟨?_, inFragL_lex cs h.2⟩
-    have h1 := h.1
-    simp only [Bool.or_eq_true, Bool.and_eq_true, beq_iff_eq] at h1
-    rcases h1 with ((h1 | h1) | h1) | h1
-    · cases k <;> simp_all [Kind.isFragFlow, Kind.isInnerKind]
-    · cases k <;> simp_all [Kind.isFragElem, Kind.isInnerKind]
-    · cases k <;> simp_all [Kind.isFragList, Kind.isInnerKind]
-    · rw [h1]; rfl
+    exact ⟨fragKind_inner k cs h.1, inFragL_lex cs h.2⟩
 theorem inFragL_lex : (cs : List ANode) → inFragL cs = true → ANode.tokensAreLeavesL cs = true
   | [], _ => rfl
   | c :: cs, h => by
@@ -150,7 +161,7 @@ theorem elem_carries {σ : Type} (e : Env) (r : Rec) (ctx : Ctx) (x : ANode) (hq
     have hv : isVerbatimNode k cs a = false := by cases k <;> simp_all [Kind.isFragElem, isVerbatimNode, Kind.isExpr]
     have hraw : k ≠ .raw := by intro h; rw [h] at hk; cases hk
     exact flow_construct_carries e ctx k cs a st producer hp hv hraw (inFragL_lex cs hq.2)
-      (fun c hc _ => inFragL_mem hq.2 hc)
+      (fun c hc => inFragL_mem hq.2 hc)
 
 /-! ### list-like constructs -/
 
@@ -181,29 +192,33 @@ theorem no_hash_of (acc : ANode → Bool) (hacc : ∀ x, acc x = true → x.kind
     unfold isPassable isIgnorable isCommentKind at h
     rw [hk] at h; simp [Kind.fixedText] at h
 
+theorem specAll_underscore_leaf (t : String) (a : Attrs) : specAll (.leaf .underscore t a) = tagS .tok t := by
+  apply Streams.ext' <;> simp [specAll, specToks, specCmts, specProse, specLit, specVerb, isCommentKind, tagS, Pretty.charsOf,
+    Pretty.keepOf, leafTag, Kind.isExpr]
+
+/-- An expression leaf of the fragment at the expression entry point (marked or not). -/
+theorem leaf_expr_frag (e : Env) (r : Rec) (ctx : Ctx) (k : Kind) (t : String) (a : Attrs) (hx : k.isExpr = true)
+    (hq : inFrag (.leaf k t a) = true) :
+    Post (if (ANode.leaf k t a).attrs.disabled = true then pure (e.verbNode (.leaf k t a)) else convExprImpl e r ctx (.leaf k t a))
+      (fun d => Carries d (specAll (.leaf k t a))) := by
+  simp only [inFrag, Bool.and_eq_true, Bool.or_eq_true, Bool.not_eq_true', beq_iff_eq] at hq
+  rcases hq.1.2 with (h | h) | h
+  · rw [hx] at h; cases h
+  · rw [specAll_frag_leaf k t a h, verbNode_frag_leaf e k t a h, convExprImpl_frag_leaf e r ctx k t a h]
+    split <;> exact Post.pure (Carries.mkText e.wd _ t)
+  · obtain ⟨hk, hd⟩ := h
+    subst hk
+    simp only [ANode.attrs, hd, Bool.false_eq_true, ↓reduceIte]
+    rw [specAll_parbreak_leaf]
+    exact Post.pure (Carries.repeatN Carries.hardline _)
+
 /-- One level of the knot: the expression entry point. -/
 theorem convExpr_frag (e : Env) (r : Rec) (hr : RecOK r Q) (ctx : Ctx) (n : ANode) (hx : isExpr n = true) (hq : inFrag n = true) :
     Post (convExpr e r ctx n) (fun d => Carries d (specAll n)) := by
   unfold convExpr
   refine Post.bind (Q := fun _ => True) (fun _ _ _ _ => trivial) (fun _ _ => ?_)
   cases n with
-  | leaf k t a =>
-    simp only [inFrag, Bool.and_eq_true, Bool.or_eq_true, Bool.not_eq_true'] at hq
-    have hkx : k.isExpr = true := hx
-    have hlit : k.isLitLeaf = true := by
-      rcases hq.1.1.2 with h | h
-      · rw [hkx] at h; cases h
-      · exact h
-    have hcar : Carries (e.lit t) (specAll (.leaf k t a)) := by
-      rw [specAll_lit_leaf k t a hlit]; exact Carries.mkText e.wd .lit t
-    split
-    · refine Post.pure ?_
-      have : e.verbNode (.leaf k t a) = e.lit t := by
-        cases k <;> first | rfl | (simp [Kind.isLitLeaf] at hlit)
-      rw [this]; exact hcar
-    · have : convExprImpl e r ctx (.leaf k t a) = pure (e.lit t) := by
-        cases k <;> first | rfl | (simp [Kind.isLitLeaf] at hlit)
-      rw [this]; exact Post.pure hcar
+  | leaf k t a => exact leaf_expr_frag e r ctx k t a hx hq
   | inner k cs a =>
     simp only [inFrag, Bool.and_eq_true] at hq
     have hkx : k.isExpr = true := hx
@@ -213,7 +228,103 @@ theorem convExpr_frag (e : Env) (r : Rec) (hr : RecOK r Q) (ctx : Ctx) (n : ANod
     · rename_i hd
       have hd' : a.disabled = false := by simpa [ANode.attrs] using hd
       have hlex := inFragL_lex cs hq.2
-      have hqc : ∀ c ∈ cs, isPattern c = true → Q c := fun c hc _ => inFragL_mem hq.2 hc
+      have hqc : ∀ c ∈ cs, Q c := fun c hc => inFragL_mem hq.2 hc
+      by_cases hwrapk : k.isFragWrap = true
+      · -- content block, strong, emphasis: delimiter, markup body, delimiter
+        have hch : listChildrenOK k cs = true := by
+          have h1 := hq.1
+          cases k <;> simp_all [Kind.isFragFlow, Kind.isFragElem, Kind.isFragList, Kind.isFragWrap, Kind.isFragItem]
+        have hv : isVerbatimNode k cs a = false := by cases k <;> simp_all [Kind.isFragWrap, isVerbatimNode]
+        have hraw : k ≠ .raw := by intro h; rw [h] at hwrapk; cases hwrapk
+        rw [specAll_inner k cs a hv hraw]
+        -- the three children
+        have hshape : ∃ c0 m c1, cs = [c0, m, c1] ∧ m.kind = .markup := by
+          have hm : ∃ k0 k2, cs.map (·.kind) = [k0, .markup, k2] := by
+            cases k <;> simp only [Kind.isFragWrap, Bool.false_eq_true] at hwrapk <;>
+              (simp only [listChildrenOK, beq_iff_eq] at hch; exact ⟨_, _, hch⟩)
+          obtain ⟨k0, k2, hm⟩ := hm
+          rcases cs with _ | ⟨c0, _ | ⟨m, _ | ⟨c1, _ | ⟨c2, rest⟩⟩⟩⟩ <;> simp at hm
+          exact ⟨c0, m, c1, rfl, hm.2.1⟩
+        obtain ⟨c0, m, c1, rfl, hmk⟩ := hshape
+        have hc0 := hlex; have hq0 := hq.2
+        simp only [ANode.tokensAreLeavesL, Bool.and_eq_true] at hc0
+        simp only [inFragL, Bool.and_eq_true] at hq0
+        have h0k : (c0.kind == .markup) = false := by
+          cases k <;> simp only [Kind.isFragWrap, Bool.false_eq_true] at hwrapk <;>
+            (simp only [listChildrenOK, beq_iff_eq, List.map_cons, List.map_nil, List.cons.injEq, and_true] at hch
+             rw [hch.1]; rfl)
+        have hfind : ([c0, m, c1] : List ANode).find? (fun x => x.kind == .markup) = some m := by
+          rw [List.find?_cons, h0k, List.find?_cons, hmk]; rfl
+        have hdelims : ∀ (s : String), ANode.tokensAreLeaves c0 = true → ANode.tokensAreLeaves c1 = true →
+            (c0.kind = .leftBracket ∧ c1.kind = .rightBracket ∧ True) ∨ True := fun _ _ _ => Or.inr trivial
+        cases k <;> simp only [Kind.isFragWrap, Bool.false_eq_true] at hwrapk
+        · -- strong
+          simp only [listChildrenOK, beq_iff_eq, List.map_cons, List.map_nil, List.cons.injEq, and_true] at hch
+          show Post (convStrongEmph e r ctx _ "*") _
+          unfold convStrongEmph firstWhere
+          simp only [ANode.children, hfind, childOr, M.pure_bind]
+          refine Post.bind (hr.markup ctx m .strong hmk hq0.2.1) (fun d hd => Post.pure ?_)
+          obtain ⟨t0, a0, h0⟩ := leaf_of_token hc0.1 (by rw [hch.1]; rfl)
+          obtain ⟨t1, a1, h1⟩ := leaf_of_token hc0.2.2.1 (by rw [hch.2.2]; rfl)
+          have ht0 : t0 = "*" := leaf_tok_fixed (by rw [← h0]; exact hc0.1) (by rw [hch.1]; rfl)
+          have ht1 : t1 = "*" := leaf_tok_fixed (by rw [← h1]; exact hc0.2.2.1) (by rw [hch.2.2]; rfl)
+          have hs0 : specAll c0 = tagS .syn "*" := by
+            rw [h0, hch.1, specAll_plain_leaf .star t0 a0 rfl, tagS_syn_eq_tok, ht0]
+          have hs1 : specAll c1 = tagS .syn "*" := by
+            rw [h1, hch.2.2, specAll_plain_leaf .star t1 a1 rfl, tagS_syn_eq_tok, ht1]
+          simpa [specAllL_cons, hs0, hs1, Streams.app_assoc, Env.syn] using hd.enclose (Carries.mkText e.wd .syn "*") (Carries.mkText e.wd .syn "*")
+        · -- emphasis
+          simp only [listChildrenOK, beq_iff_eq, List.map_cons, List.map_nil, List.cons.injEq, and_true] at hch
+          show Post (convStrongEmph e r ctx _ "_") _
+          unfold convStrongEmph firstWhere
+          simp only [ANode.children, hfind, childOr, M.pure_bind]
+          refine Post.bind (hr.markup ctx m .strong hmk hq0.2.1) (fun d hd => Post.pure ?_)
+          obtain ⟨t0, a0, h0⟩ := leaf_of_token hc0.1 (by rw [hch.1]; rfl)
+          obtain ⟨t1, a1, h1⟩ := leaf_of_token hc0.2.2.1 (by rw [hch.2.2]; rfl)
+          have ht0 : t0 = "_" := leaf_tok_fixed (by rw [← h0]; exact hc0.1) (by rw [hch.1]; rfl)
+          have ht1 : t1 = "_" := leaf_tok_fixed (by rw [← h1]; exact hc0.2.2.1) (by rw [hch.2.2]; rfl)
+          have hs0 : specAll c0 = tagS .syn "_" := by
+            rw [h0, hch.1, specAll_underscore_leaf, tagS_syn_eq_tok, ht0]
+          have hs1 : specAll c1 = tagS .syn "_" := by
+            rw [h1, hch.2.2, specAll_underscore_leaf, tagS_syn_eq_tok, ht1]
+          simpa [specAllL_cons, hs0, hs1, Streams.app_assoc, Env.syn] using hd.enclose (Carries.mkText e.wd .syn "_") (Carries.mkText e.wd .syn "_")
+        · -- content block
+          simp only [listChildrenOK, beq_iff_eq, List.map_cons, List.map_nil, List.cons.injEq, and_true] at hch
+          show Post (convContentBlock e r ctx _) _
+          unfold convContentBlock
+          simp only [ANode.children, hfind, childOr, M.pure_bind]
+          refine Post.bind (hr.markup ctx m .contentBlock hmk hq0.2.1) (fun d hd => Post.pure ?_)
+          obtain ⟨t0, a0, h0⟩ := leaf_of_token hc0.1 (by rw [hch.1]; rfl)
+          obtain ⟨t1, a1, h1⟩ := leaf_of_token hc0.2.2.1 (by rw [hch.2.2]; rfl)
+          have ht0 : t0 = "[" := leaf_tok_fixed (by rw [← h0]; exact hc0.1) (by rw [hch.1]; rfl)
+          have ht1 : t1 = "]" := leaf_tok_fixed (by rw [← h1]; exact hc0.2.2.1) (by rw [hch.2.2]; rfl)
+          have hs0 : specAll c0 = tagS .syn "[" := by
+            rw [h0, hch.1, specAll_plain_leaf .leftBracket t0 a0 rfl, tagS_syn_eq_tok, ht0]
+          have hs1 : specAll c1 = tagS .syn "]" := by
+            rw [h1, hch.2.2, specAll_plain_leaf .rightBracket t1 a1 rfl, tagS_syn_eq_tok, ht1]
+          simpa [specAllL_cons, hs0, hs1, Streams.app_assoc, Env.syn] using (hd.nstTab.grp).enclose (Carries.mkText e.wd .syn "[") (Carries.mkText e.wd .syn "]")
+      by_cases hitemk : k.isFragItem = true
+      · -- heading, list / enum / term item
+        have hv : isVerbatimNode k cs a = false := by cases k <;> simp_all [Kind.isFragItem, isVerbatimNode]
+        have hraw : k ≠ .raw := by intro h; rw [h] at hitemk; cases hitemk
+        cases k <;> simp only [Kind.isFragItem, Bool.false_eq_true] at hitemk
+        · show Post (convHeading e r ctx _) _
+          exact flow_construct_carries e ctx _ cs a () _ (headingProducer_ok e r hr) hv hraw hlex hqc
+        all_goals
+          (show Post (convListItemLike e r ctx _) _
+           unfold convListItemLike
+           refine Post.bind ?_ (fun d hd => Post.pure (Carries.nstTab hd))
+           rw [specAll_inner _ cs a hv hraw, ← contribL_specAll cs hlex]
+           exact flowM_carries (commentOK e) (listItemProducer_ok e r hr) (fun c hok hk => specAll_space c hok.1.1 hk) cs
+             (fun c hc => ⟨⟨tokensAreLeavesL_mem hlex hc, hqc c hc⟩, fun hk he => by
+               have hcq : inFrag c = true := hqc c hc
+               cases c with
+               | leaf k' t' a' => simp only [ANode.kind] at hk; subst hk; simp [inFrag, Kind.isInnerKind] at hcq
+               | inner k' cs' a' =>
+                 simp only [ANode.kind] at hk; subst hk
+                 have : cs' = [] := by simpa [ANode.children] using he
+                 subst this
+                 rw [specAll_inner .markup [] a' (by simp [isVerbatimNode, Kind.isExpr]) (by decide)]; rfl⟩) false)
       by_cases hflowk : k.isFragFlow = true
       · have hv : isVerbatimNode k cs a = false := by cases k <;> simp_all [Kind.isFragFlow, isVerbatimNode]
         have hraw : k ≠ .raw := by intro h; rw [h] at hflowk; cases hflowk
@@ -244,12 +355,7 @@ theorem convExpr_frag (e : Env) (r : Rec) (hr : RecOK r Q) (ctx : Ctx) (n : ANod
       · -- list-like
         have hlistk : k.isFragList = true ∧ listChildrenOK k cs = true := by
           have h1 := hq.1
-          simp only [Bool.or_eq_true, Bool.and_eq_true, beq_iff_eq] at h1
-          rcases h1 with ((h1 | h1) | h1) | h1
-          · exact absurd h1 hflowk
-          · cases k <;> simp_all [Kind.isFragElem, Kind.isExpr]
-          · exact h1
-          · rw [h1] at hkx; cases hkx
+          cases k <;> simp_all [Kind.isFragFlow, Kind.isFragElem, Kind.isFragList, Kind.isFragWrap, Kind.isFragItem, Kind.isExpr]
         obtain ⟨sp0, sp1, sp2, sp3, sp4, sp5⟩ := soft_paren e
         have hspec : ∀ (hcb : k = .codeBlock → ∀ c ∈ cs, c.kind = .code → ∃ ccs ca, c = .inner .code ccs ca ∧ ca.disabled = false),
             specAll (.inner k cs a) = specAllL cs := by
@@ -419,12 +525,8 @@ theorem convParenthesized_frag (e : Env) (r : Rec) (hr : RecOK r Q) (ctx : Ctx) 
     simp only [inFrag, Bool.and_eq_true] at hq
     have hch : listChildrenOK .parenthesized cs = true := by
       have h1 := hq.1
-      simp only [Bool.or_eq_true, Bool.and_eq_true] at h1
-      rcases h1 with ((h1 | h1) | h1) | h1
-      · cases h1
-      · cases h1
-      · exact h1.2
-      · cases h1
+      simp [Kind.isFragFlow, Kind.isFragElem, Kind.isFragList, Kind.isFragWrap, Kind.isFragItem] at h1
+      exact h1
     have hall : ∀ x ∈ cs, inFrag x = true ∧ (isPattern x = true ∨ isPassable x = true) := by
       intro x hx
       simp only [listChildrenOK, List.all_eq_true] at hch
@@ -471,63 +573,95 @@ theorem convParenthesized_frag (e : Env) (r : Rec) (hr : RecOK r Q) (ctx : Ctx) 
 theorem convPattern_frag (e : Env) (r : Rec) (hr : RecOK r Q) (ctx : Ctx) (n : ANode)
     (hp : isPattern n = true) (hq : inFrag n = true) :
     Post (convPattern e r (convExpr e r) (convParenthesized e r) ctx n) (fun d => Carries d (specAll n)) := by
-  -- a pattern of the fragment is an expression: neither `_` nor a destructuring is in it
-  have hx : isExpr n = true := by
-    cases n with
-    | leaf k t a =>
-      simp only [inFrag, Bool.and_eq_true, Bool.not_eq_true', beq_eq_false_iff_ne] at hq
+  by_cases hu : n.kind = .underscore
+  · -- the placeholder `_`
+    obtain ⟨t, a, hn⟩ := leaf_of_token (inFrag_lex n hq) (by rw [hu]; rfl)
+    rw [hu] at hn
+    subst hn
+    have ht : t = "_" := leaf_tok_fixed (inFrag_lex _ hq) rfl
+    subst ht
+    unfold convPattern
+    refine Post.bind (Q := fun _ => True) (fun _ _ _ _ => trivial) (fun _ _ => ?_)
+    rw [specAll_underscore_leaf]
+    split
+    · exact Post.pure (Carries.mkText e.wd .tok "_")
+    · refine Post.pure ((Carries.mkText e.wd .syn "_").congr (tagS_syn_eq_tok "_"))
+  · -- every other pattern of the fragment is an expression
+    have hx : isExpr n = true := by
       unfold isPattern at hp
       simp only [Bool.or_eq_true, beq_iff_eq] at hp
       rcases hp with (h | h) | h
-      · exact absurd h hq.1.2
-      · simp only [ANode.kind] at h; rw [h] at hq; simp [Kind.isInnerKind] at hq
+      · exact absurd h hu
+      · exfalso
+        cases n with
+        | leaf k t a =>
+          simp only [ANode.kind] at h; subst h
+          simp [inFrag, Kind.isInnerKind] at hq
+        | inner k cs a =>
+          simp only [ANode.kind] at h; subst h
+          simp [inFrag, Kind.isFragFlow, Kind.isFragElem, Kind.isFragList, Kind.isFragWrap, Kind.isFragItem] at hq
       · exact h
-    | inner k cs a =>
-      simp only [inFrag, Bool.and_eq_true] at hq
-      unfold isPattern at hp
-      simp only [Bool.or_eq_true, beq_iff_eq, ANode.kind] at hp
-      rcases hp with (h | h) | h
-      · rw [h] at hq; simp [Kind.isFragFlow, Kind.isFragElem, Kind.isFragList] at hq
-      · rw [h] at hq; simp [Kind.isFragFlow, Kind.isFragElem, Kind.isFragList] at hq
-      · exact h
-  have hk1 : n.kind ≠ .underscore := by intro h; unfold isExpr at hx; rw [h] at hx; cases hx
-  have hk2 : n.kind ≠ .destructuring := by intro h; unfold isExpr at hx; rw [h] at hx; cases hx
-  have hexpr := convExpr_frag e r hr ctx n hx hq
-  unfold convPattern
-  refine Post.bind (Q := fun _ => True) (fun _ _ _ _ => trivial) (fun _ _ => ?_)
-  split
-  · -- marked: verbatim, as at the expression entry point
-    rename_i hd
-    cases n with
-    | leaf k t a =>
-      simp only [inFrag, Bool.and_eq_true, Bool.or_eq_true, Bool.not_eq_true'] at hq
-      have hlit : k.isLitLeaf = true := by
-        rcases hq.1.1.2 with h | h
-        · have : k.isExpr = true := hx
-          rw [this] at h; cases h
-        · exact h
-      refine Post.pure ?_
-      have : e.verbNode (.leaf k t a) = e.lit t := by
-        cases k <;> first | rfl | (simp [Kind.isLitLeaf] at hlit)
-      rw [this, specAll_lit_leaf k t a hlit]; exact Carries.mkText e.wd .lit t
-    | inner k cs a =>
-      exact Post.pure (verb_inner_carries e k cs a (by simpa [ANode.attrs] using hd) hx)
-  · rename_i hd
+    have hk2 : n.kind ≠ .destructuring := by intro h; unfold isExpr at hx; rw [h] at hx; cases hx
+    have hexpr := convExpr_frag e r hr ctx n hx hq
+    unfold convPattern
+    refine Post.bind (Q := fun _ => True) (fun _ _ _ _ => trivial) (fun _ _ => ?_)
     split
-    · rename_i hk; exact absurd hk hk1
-    · rename_i hk; exact absurd hk hk2
-    · rename_i hk
-      exact convParenthesized_frag e r hr ctx n hk (by simpa using hd) hq
-    · exact hexpr
+    · -- marked: verbatim, as at the expression entry point
+      rename_i hd
+      cases n with
+      | leaf k t a =>
+        have := leaf_expr_frag e r ctx k t a hx hq
+        rw [if_pos hd] at this
+        exact this
+      | inner k cs a =>
+        exact Post.pure (verb_inner_carries e k cs a (by simpa [ANode.attrs] using hd) hx)
+    · rename_i hd
+      split
+      · rename_i hk; exact absurd hk hu
+      · rename_i hk; exact absurd hk hk2
+      · rename_i hk
+        exact convParenthesized_frag e r hr ctx n hk (by simpa using hd) hq
+      · exact hexpr
+
+/-- One level of the knot: `convert_markup_impl`. -/
+theorem convMarkup_frag (e : Env) (r : Rec) (hr : RecOK r Q) (ctx : Ctx) (n : ANode) (scope : Scope) (hk : n.kind = .markup)
+    (hq : inFrag n = true) : Post (convMarkup e r ctx n scope) (fun d => Carries d (specAll n)) := by
+  cases n with
+  | leaf k t a =>
+    simp only [ANode.kind] at hk; subst hk
+    simp [inFrag, Kind.isInnerKind] at hq
+  | inner k cs a =>
+    simp only [ANode.kind] at hk; subst hk
+    simp only [inFrag, Bool.and_eq_true] at hq
+    have hch : listChildrenOK .markup cs = true := by
+      have h1 := hq.1
+      simp [Kind.isFragFlow, Kind.isFragElem, Kind.isFragList, Kind.isFragWrap, Kind.isFragItem] at h1
+      exact h1
+    rw [specAll_inner .markup cs a (by simp [isVerbatimNode, Kind.isExpr]) (by decide)]
+    refine convMarkup_carries e r hr ctx .markup cs a scope (fun x hx => ?_)
+    have hxq := inFragL_mem hq.2 hx
+    refine ⟨inFrag_lex x hxq, fun _ => hxq, ?_⟩
+    simp only [listChildrenOK, List.all_eq_true] at hch
+    have := hch x hx
+    simp only [Bool.or_eq_true, beq_iff_eq] at this
+    rcases this with ((((h | h) | h) | h) | h) | h
+    · exact Or.inl h
+    · exact Or.inr (Or.inr (Or.inl (by unfold isExpr; rw [h]; rfl)))
+    · exact Or.inr (Or.inl h)
+    · exact Or.inr (Or.inr (Or.inl h))
+    · exact Or.inr (Or.inr (Or.inr (Or.inl h)))
+    · exact Or.inr (Or.inr (Or.inr (Or.inr h)))
 
 /-- **The knot, by induction on the fuel**: at every level, the expression, pattern and parenthesis
 entry points carry what a tree of the fragment prescribes. -/
 theorem knot_frag (e : Env) : ∀ fuel, RecOK (knot e fuel) Q
-  | 0 => ⟨fun _ _ _ _ => Post.rejected _, fun _ _ _ _ => Post.rejected _, fun _ _ _ _ _ => Post.rejected _⟩
+  | 0 => ⟨fun _ _ _ _ => Post.rejected _, fun _ _ _ _ => Post.rejected _, fun _ _ _ _ _ => Post.rejected _,
+          fun _ _ _ _ _ => Post.rejected _⟩
   | fuel+1 => by
     have ih := knot_frag e fuel
     exact ⟨fun ctx c hx hq => convExpr_frag e (knot e fuel) ih ctx c hx hq,
            fun ctx c hp hq => convPattern_frag e (knot e fuel) ih ctx c hp hq,
-           fun ctx c hk hd hq => convParenthesized_frag e (knot e fuel) ih ctx c hk hd hq⟩
+           fun ctx c hk hd hq => convParenthesized_frag e (knot e fuel) ih ctx c hk hd hq,
+           fun ctx c scope hk hq => convMarkup_frag e (knot e fuel) ih ctx c scope hk hq⟩
 
 end Typstyle
